@@ -59,6 +59,31 @@ Theorem C17_zero_operator :
 Proof. intros SP. exact (@pi_zero_operator SP). Qed.
 Print Assumptions C17_zero_operator.
 
+(** the early exit `normAv == 0.0` is taken ONLY when A^H A v is exactly the zero vector ... *)
+Theorem C17_early_exit_only_on_kernel :
+  forall (S1 S2 : InnerSpace) (A : @E S1 -> @E S2) (AH : @E S2 -> @E S1) n v mu,
+    AH (A v) <> vzero ->
+    pi_loop (fun x => AH (A x)) (S n) v mu =
+    pi_loop (fun x => AH (A x)) n (vscale (/ norm (AH (A v))) (AH (A v))) (rq (fun x => AH (A x)) v).
+Proof. intros S1 S2 A AH. exact (pi_no_exit_off_kernel A AH). Qed.
+Print Assumptions C17_early_exit_only_on_kernel.
+
+(** ... the estimate is 0 only if some iterate was a non-zero kernel vector ... *)
+Theorem C17_estimate_zero_only_on_kernel :
+  forall (S1 S2 : InnerSpace) (A : @E S1 -> @E S2) (AH : @E S2 -> @E S1), IsAdj A AH ->
+    forall n v mu0, v <> vzero -> fst (pi_loop (fun x => AH (A x)) (S n) v mu0) = 0 ->
+    exists w, w <> vzero /\ AH (A w) = vzero.
+Proof. intros S1 S2 A AH adj. exact (pi_zero_only_on_kernel A AH adj). Qed.
+Print Assumptions C17_estimate_zero_only_on_kernel.
+
+(** ... and it is strictly positive for every operator with trivial kernel, whatever its scale *)
+Theorem C17_estimate_positive :
+  forall (S1 S2 : InnerSpace) (A : @E S1 -> @E S2) (AH : @E S2 -> @E S1), IsAdj A AH ->
+    forall n v mu0, (forall w, AH (A w) = vzero -> w = vzero) -> v <> vzero ->
+    0 < fst (pi_loop (fun x => AH (A x)) (S n) v mu0).
+Proof. intros S1 S2 A AH adj. exact (pi_positive_trivial_kernel A AH adj). Qed.
+Print Assumptions C17_estimate_positive.
+
 (** ** Diagonal.norm / ScaledIdentity.norm *)
 
 (** ord = 2 (induced 2-norm) is max |d_i|: upper bound for every x, attained at a basis vector *)
